@@ -39,7 +39,7 @@ def jobs(tier):
     for sh in b["shapes"]:
         for leaf in b["leaves"]:
             out.append({"name": "ops/%s/%s" % (sh, leaf), "kind": "ops", "shape": sh, "leaf": leaf, "depth": b["depth"], "tier": tier})
-    for sh in ("nested+late", "cfglist+late", "nested+env"):
+    for sh in ("nested+late", "cfglist+late", "nested+env", "nested+off"):
         for leaf in ["int09", "str-norm", "list-int", "dict-typed", "bool"]:
             out.append({"name": "ops/%s/%s" % (sh, leaf), "kind": "ops", "shape": sh, "leaf": leaf, "depth": b["depth"], "tier": tier})
     for leaf in (b["leaves"] if tier == "thorough" else ["int09", "str-regex-req", "list-int"]):
